@@ -485,6 +485,88 @@ pub fn fill_sweep_one(vectored: bool, fill: usize, verbose: bool) -> Vec<(String
     v
 }
 
+/// HPACK dynamic table size update (RFC 7541 6.3): pattern 001, 5-bit prefix integer
+fn size_update(n: usize) -> Vec<u8> {
+    if n < 31 {
+        return vec![0x20 | n as u8];
+    }
+    let mut v = vec![0x3f];
+    let mut rest = n - 31;
+    while rest >= 128 {
+        v.push((rest % 128) as u8 | 0x80);
+        rest /= 128;
+    }
+    v.push(rest as u8);
+    v
+}
+
+/// X3: "locally changed settings are enforced against the peer only once the peer's acknowledgement has arrived", for the
+/// one local setting that reaches the HPACK decoder: a server that advertises SETTINGS_HEADER_TABLE_SIZE = size receives a
+/// request whose header block starts with a table size update u - before the peer has acknowledged the server's SETTINGS
+/// (the default 4096 is still the bound) and after (size is the bound).
+pub fn local_table_size_one(size: u32, u: usize, acked: bool, verbose: bool) -> Vec<(String, String, String)> {
+    let mut v = vec![];
+    let mut sb = h2::server::Builder::new();
+    sb.header_table_size(size);
+    let cfg = T2Cfg { role: Side::Server, peer_settings: vec![], client: None, server: Some(sb), policy: IoPolicy::default() };
+    let mut t = T2::new(&cfg, vec![]);
+    t.drive(100);
+    if acked {
+        t.peer_ack_settings();
+        t.drive(100);
+    }
+    let mut block = size_update(u);
+    block.extend(T2::block(&[(":method", "GET"), (":scheme", "http"), (":authority", "h.example"), (":path", "/t")]));
+    t.peer_send(&wf::headers(1, &block, true, true));
+    t.drive(100);
+    t.catch_up();
+    let bound = if acked { size as usize } else { 4096 };
+    let accepted = t.accepted.iter().any(|a| a.sid == 1);
+    let goaway = t.goaway_sent();
+    let label = format!("advertised {} ({}), size update {}", size, if acked { "acknowledged by the peer" } else { "not yet acknowledged" }, u);
+    if u <= bound {
+        if !accepted || goaway.is_some() {
+            v.push(("C14.local-table-size".to_string(), format!("legal-update-rejected:{}", if acked { "acked" } else { "unacked" }), format!("{}: the update is within the bound in force ({}), yet the request was not delivered (GOAWAY {:?}, connection {:?})", label, bound, goaway, t.conn_result)));
+        }
+    } else if acked && accepted && goaway.is_none() {
+        v.push(("C14.local-table-size".into(), "oversized-update-accepted".into(), format!("{}: the update exceeds the acknowledged bound {} and was accepted", label, bound)));
+    }
+    if verbose {
+        println!("{}: accepted {} goaway {:?}", label, accepted, goaway);
+    }
+    for p in t.finish() {
+        v.push(("C14.panic".into(), "local-table-size".into(), format!("{}: panic {}", label, p.lines().next().unwrap_or(""))));
+    }
+    v
+}
+
+pub fn local_table_size_sweep(out: &mut Outcome, vios: &mut VioSet) {
+    let mut jobs: Vec<(u32, usize, bool)> = vec![];
+    for size in [0u32, 100, 4096, 8192, 65_536] {
+        for u in [0usize, 1, 30, 31, 100, 101, 4096, 4097, 8192, 8193, 65_536, 65_537] {
+            // (the T2 handshake acknowledges the subject's initial SETTINGS, so only the acknowledged situation can be set up;
+            // the 'not before the acknowledgement' half is covered for windows by the X2 model)
+            jobs.push((size, u, true));
+        }
+    }
+    let found = std::sync::Mutex::new(vec![]);
+    par_for(jobs.len(), |i| {
+        let (size, u, acked) = jobs[i];
+        let vs = local_table_size_one(size, u, acked, false);
+        if !vs.is_empty() {
+            found.lock().unwrap().push((jobs[i], vs));
+        }
+    });
+    for ((size, u, acked), vs) in found.into_inner().unwrap() {
+        for (rule, sig, what) in vs {
+            vios.add(Violation { rule, signature: sig, what, replay: json!({"harness": "c14.table", "size": size, "u": u, "acked": acked}) });
+        }
+    }
+    out.harness("local-header-table-size sweep", json!({"cases": jobs.len()}));
+    out.add_count("evaluations", jobs.len() as u64);
+    out.add_count("traces_validated_against_impl", jobs.len() as u64);
+}
+
 pub fn fill_sweep(out: &mut Outcome, vios: &mut VioSet, quick: bool) {
     let jobs = fill_levels(quick);
     let found = std::sync::Mutex::new(vec![]);
@@ -519,6 +601,7 @@ pub fn run(ctx: &Ctx) -> Outcome {
     let mut vs = VioSet::default();
     vs.merge(rep.agg.vios);
     fill_sweep(&mut out, &mut vs, ctx.tier.is_quick());
+    local_table_size_sweep(&mut out, &mut vs);
     out.violations = vs.into_vec();
     out.guard_nonzero("settings acks", out.coverage.get("mechanism_counters").and_then(|m| m.get("settings_acks")).and_then(|v| v.as_u64()).unwrap_or(0));
     out.guard_nonzero("pongs", out.coverage.get("mechanism_counters").and_then(|m| m.get("pongs")).and_then(|v| v.as_u64()).unwrap_or(0));
@@ -527,6 +610,13 @@ pub fn run(ctx: &Ctx) -> Outcome {
 
 pub fn replay(v: &serde_json::Value) -> Option<bool> {
     let h = v["harness"].as_str().unwrap_or("");
+    if h == "c14.table" {
+        let vs = local_table_size_one(v["size"].as_u64().unwrap_or(0) as u32, v["u"].as_u64().unwrap_or(0) as usize, v["acked"].as_bool().unwrap_or(true), true);
+        for (r, _, w) in &vs {
+            println!("RULE VIOLATED: {} {}", r, w);
+        }
+        return Some(!vs.is_empty());
+    }
     if h == "c14.fill" {
         let vs = fill_sweep_one(v["vectored"].as_bool().unwrap_or(false), v["fill"].as_u64().unwrap_or(0) as usize, true);
         for (r, _, w) in &vs {
